@@ -227,7 +227,7 @@ func specC15hello(tier string) *SeqSpec {
 // ---- C14: databases and session state ------------------------------------------------------------------
 
 func specC14(tier string) *SeqSpec {
-	s := &SeqSpec{ID: "C14", Sessions: 3, Keys: []string{"k", "j"}, DBs: []int{0, 1, 15}, LazyFrom: 2, ObserveAll: true}
+	s := &SeqSpec{ID: "C14", Sessions: 3, Keys: []string{"k", "j"}, DBs: []int{0, 1, 15}, LazyFrom: 2, ObserveAll: true, Persist: true}
 	var A []Op
 	for sess := 0; sess < 3; sess++ {
 		v := "v" + itoa(sess)
@@ -240,6 +240,9 @@ func specC14(tier string) *SeqSpec {
 		}
 	}
 	A = append(A, cs(0, "MULTI"), cs(0, "EXEC"), cs(0, "WATCH", "k"), cs(1, "SELECT", "x"), cs(1, "HELLO", "2"), cs(1, "KEYS", "*"))
+	// the saver's tick between any two commands (the instance has a persist path): it must not change what any
+	// connection sees - e.g. by tidying away a database that connections have selected
+	A = append(A, cs(0, "$SAVE"))
 	// a database switch inside a transaction: the commands queued after it run in the new database,
 	// the connection stays there afterwards
 	for sess := 0; sess < 2; sess++ {
@@ -272,6 +275,22 @@ func specC14(tier string) *SeqSpec {
 		}
 		if len(b) > 0 {
 			weave(a, b[1:], append(acc, Op{Sess: 1, Args: b[0]}), emit)
+		}
+	}
+	// the saver's tick in the middle of histories in which a connection sits in an EMPTY database (the tick does
+	// not change the model's state, so the search over model states never goes on from "after the tick")
+	for _, n := range []string{"1", "15"} {
+		for _, seq := range [][]Op{
+			{cs(0, "SELECT", n), cs(0, "$SAVE"), cs(1, "SELECT", n), cs(1, "SET", "k", "v1"), cs(0, "GET", "k")},
+			{cs(0, "SELECT", n), cs(0, "SET", "k", "x"), cs(0, "DEL", "k"), cs(0, "$SAVE"), cs(0, "$SAVE"), cs(1, "SELECT", n), cs(1, "RPUSH", "j", "y"), cs(0, "DBSIZE"), cs(0, "LRANGE", "j", "0", "-1")},
+			{cs(0, "SELECT", n), cs(0, "WATCH", "k"), cs(0, "$SAVE"), cs(1, "SELECT", n), cs(1, "SET", "k", "w"), cs(0, "MULTI"), cs(0, "GET", "k"), cs(0, "EXEC")},
+			{cs(0, "SELECT", n), cs(0, "$SAVE"), cs(0, "SET", "k", "mine"), cs(0, "$SAVE"), cs(1, "SELECT", n), cs(1, "GET", "k"), cs(1, "FLUSHDB"), cs(0, "GET", "k")},
+			{cs(0, "SELECT", n), cs(0, "MULTI"), cs(0, "SET", "k", "queued"), cs(0, "$SAVE"), cs(1, "SELECT", n), cs(1, "SET", "j", "other"), cs(0, "EXEC"), cs(1, "GET", "k"), cs(0, "GET", "j")},
+			{cs(0, "SELECT", n), cs(0, "$SAVE"), cs(1, "FLUSHALL"), cs(0, "$SAVE"), cs(0, "SET", "k", "after"), cs(1, "SELECT", n), cs(1, "DBSIZE")},
+		} {
+			o := seq[0]
+			o.Then = seq[1:]
+			s.InitSweep = append(s.InitSweep, o)
 		}
 	}
 	for i, pa := range progs {
